@@ -26,6 +26,8 @@ T = {
  "C07b": ("C07", "read fault on UpsertLeaf's last-root SELECT in the L1 info store", "C07: tree scenario monitor 'UpsertLeaf swallowed a storage error at statement 0' (statement-level faults incl. reads, phase boundaries favoured)"),
  "C04a": ("C04", "another query in flight on the same pool when Reorg starts (foreign keys only on the first connection)", "C04: regenerated Schema fact dsnForeignKeysOn breaks C04_schema_cascades + twin comparison after a reorg with a read in flight"),
  "C04b": ("C04", "storage fault on the DELETE FROM root of the reorg transaction", "C04: twin comparison after a reorg attempt with a storage fault"),
+ "C15a": ("C15", "transient L2 read failure on a tick where the latest finalized GER is already on L2", "C15: oracle monitor 'injected although the L2 contract already has it' (each dependency fails 6% of ticks)"),
+ "C15b": ("C15", "syncer strictly ahead of the sampled finalized block with an info update in between", "C15: oracle monitor 'not the most recent root at or below any finalized block sampled' (real l1infotreesync processor behind the oracle)"),
  "C05a": ("C05", "a range past the finalized pointer holding >=2 event blocks", "C05: downloader monitor 'handed over after … / twice' (+ correspondence)"),
  "C05b": ("C05", "eth_getLogs failing with a wrapped DeadlineExceeded on a range with watched logs", "C05: downloader monitor 'handed over with events [] …' (scripted transient eth_getLogs failures incl. request timeouts)"),
 }
